@@ -256,6 +256,40 @@ func (r *Runner) execMacro(a Action) {
 			}
 		}
 		r.exec(Action{Op: "heal"})
+	case "inheritedtail":
+		// commands reach the followers but their acknowledgements are lost, so
+		// nothing commits; every server is cut off until the leader's lease runs
+		// out; after the heal whoever wins holds an uncommitted tail of an older
+		// term, accepts new commands on top of it, and then commits all at once
+		_, L := r.leader()
+		if L == nil {
+			return
+		}
+		w.Mu.Lock()
+		r.dropAppendAcks = true
+		r.lastFaultMs = w.Now()
+		w.Mu.Unlock()
+		r.doApply(L, max(1, a.N), 0)
+		w.Advance(15*time.Millisecond, r.sample)
+		for i := range r.ids {
+			r.exec(Action{Op: "isolate", Srv: i})
+		}
+		w.Advance(r.maxHB()*2+20*time.Millisecond, r.sample)
+		r.exec(Action{Op: "heal"})
+		for k := 0; k < 40; k++ {
+			if _, W := r.leader(); W != nil {
+				r.doApply(W, max(1, a.Arg), 0)
+				r.feat("new-leader-with-inherited-uncommitted-tail")
+				break
+			}
+			w.Advance(r.maxHB()/2, r.sample)
+		}
+		w.Advance(10*time.Millisecond, r.sample)
+		w.Mu.Lock()
+		r.dropAppendAcks = false
+		r.lastFaultMs = w.Now()
+		w.Mu.Unlock()
+		w.Advance(50*time.Millisecond, r.sample)
 	case "cfgrestart":
 		// a membership change, a few settled writes, every server restarts; the
 		// new leader snapshots; everything restarts again (what survives is the
